@@ -3,6 +3,7 @@ from __future__ import annotations
 
 import json
 import os
+import re
 import subprocess
 import sys
 import time
@@ -10,6 +11,12 @@ import time
 VERIF = os.path.dirname(os.path.dirname(os.path.abspath(__file__)))
 EVIDENCE_DIR = os.environ.get('PYVC_EVIDENCE_DIR') or os.path.join(VERIF, 'evidence')
 LOCK = os.path.join(VERIF, 'obligations.lock.json')
+_ORD = re.compile(r'#\d+')
+
+
+def _base(name):
+    return _ORD.sub('#', name)
+
 KNOWN = os.path.join(VERIF, 'known_findings.json')
 VENV_PY = '/venv/bin/python'
 
@@ -70,6 +77,7 @@ def finish(pid, tier, results, wall, verbose=True):
     lock = load_json(LOCK, {})
     known = [k for k in load_json(KNOWN, {'findings': []})['findings'] if k['property'] == pid]
     locked = set(lock.get(pid, []))
+    locked_bases = {_base(x) for x in locked}
     obligations, discharged = [], 0
     undecided, violations, errors, known_hits = [], [], [], []
     funcs = []
@@ -166,11 +174,15 @@ def finish(pid, tier, results, wall, verbose=True):
                 violations.append((ob, rpath, ''))
             elif ob['status'] == 'failed' and fr and fr.get('reproduced') is False and fr.get('conclusive'):
                 undecided.append((ob['name'], 'spurious-model: solver model does not reproduce on the real code'))
-            elif ob['name'] in locked:
+            elif ob['name'] in locked or (_ORD.search(ob['name']) and _base(ob['name']) in locked_bases):
+                # (obligations named by a call-site / statement ordinal are matched modulo the ordinal: an
+                # edit elsewhere in the function renumbers them)
                 violations.append((ob, rpath, ' no-failing-input-found'))
             else:
                 undecided.append((ob['name'], f"{ob['status']} ({ob['reason']}); not in lock file"))
-    missing = sorted(locked - generated) if not errors else []
+    # ordinal-named obligations (noexc:E#k, pre:call:f#k:clause) come and go with harmless edits: only the
+    # obligations named after a contract clause, a loop invariant, a frame or a lemma must still be generated
+    missing = sorted(m for m in locked - generated if not _ORD.search(m)) if not errors else []
     for m in missing:
         undecided.append((m, 'locked obligation was not generated (function renamed/removed or clause anchor gone)'))
     # ---- output
